@@ -248,11 +248,30 @@ func invUnordered(P *Program, S *Specs, prefixes []string, label string) []*Obli
 							bad = append(bad, fnName(f)+": calls "+n)
 						}
 					}
+					// package-level mutable state: a method call on (the address of) a package-level
+					// variable of a sync type (sync.Map, sync.Pool, sync.Mutex ...) outside init
+					if !isInitFn(f) {
+						for _, a := range x.Common().Args {
+							if g := globalRoot(a); g != nil && inRepoPkg(g.Pkg.Pkg) && strings.HasPrefix(typeName(derefT(g.Type())), "sync.") {
+								bad = append(bad, fnName(f)+": uses package-level "+typeName(derefT(g.Type()))+" "+g.Name())
+							}
+						}
+					}
+				case *ssa.Store:
+					if g := globalRoot(x.Addr); g != nil && inRepoPkg(g.Pkg.Pkg) && !isInitFn(f) {
+						bad = append(bad, fnName(f)+": writes package-level variable "+g.Name())
+					}
+				case *ssa.MapUpdate:
+					if ld, ok := x.Map.(*ssa.UnOp); ok && !isInitFn(f) {
+						if g := globalRoot(ld.X); g != nil && inRepoPkg(g.Pkg.Pkg) {
+							bad = append(bad, fnName(f)+": updates package-level map "+g.Name())
+						}
+					}
 				}
 			}
 		}
 	}
-	return []*Obligation{invOb("no-unordered-constructs-"+label, "no goroutine, select, clock, random source, pointer-to-integer conversion or unlisted map range in the "+label, len(bad) == 0, strings.Join(bad, "; "))}
+	return []*Obligation{invOb("no-unordered-constructs-"+label, "no goroutine, select, clock, random source, pointer-to-integer conversion, unlisted map range or package-level mutable state (written variable, updated map, sync object) in the "+label, len(bad) == 0, strings.Join(bad, "; "))}
 }
 
 // invStructLiteralSites: objects of the given struct type are allocated only in the listed functions.
@@ -447,4 +466,39 @@ func invOnceClosures(P *Program, S *Specs) []*Obligation {
 	}
 	sort.Slice(out, func(i, j int) bool { return out[i].Name < out[j].Name })
 	return out
+}
+
+// globalRoot: the package-level variable an address is rooted in (through field / index address
+// computations), or nil.
+func globalRoot(v ssa.Value) *ssa.Global {
+	for i := 0; i < 8; i++ {
+		switch x := v.(type) {
+		case *ssa.Global:
+			return x
+		case *ssa.FieldAddr:
+			v = x.X
+		case *ssa.IndexAddr:
+			v = x.X
+		default:
+			return nil
+		}
+	}
+	return nil
+}
+
+func derefT(t types.Type) types.Type {
+	if p, ok := t.Underlying().(*types.Pointer); ok {
+		return p.Elem()
+	}
+	return t
+}
+
+func isInitFn(f *ssa.Function) bool {
+	for f != nil {
+		if f.Name() == "init" || strings.HasPrefix(f.Name(), "init#") || strings.HasPrefix(f.Name(), "init$") {
+			return true
+		}
+		f = f.Parent()
+	}
+	return false
 }
